@@ -1,5 +1,6 @@
 import OpcuaVerif.Lemmas.EncFaultRec
 import OpcuaVerif.Lemmas.EncSchemaFault
+import OpcuaVerif.Lemmas.EncTcpFault
 import OpcuaVerif.Generated.Schemas
 
 /-!
@@ -129,5 +130,67 @@ theorem dec_total_schema (o : Opts) (cap : Nat) (hc : CapOK o cap) (fuel : Nat) 
   | err => rfl
 
 example : (Gen.schemas.lookup "ReadRequest").isSome = true := by decide +kernel
+
+/-! ### UA-TCP messages, message headers and the object-id dispatch -/
+
+private theorem isFault_none_of_noFault {α : Type} {x : Res α} (h : x.NoFault) : x.isFault = none := by
+  cases x with
+  | fault k => exact h.elim
+  | ok v r => rfl
+  | err => rfl
+
+/-- `MessageHeader::decode` is total on all bytes -/
+theorem msg_header_total (b : Bytes) : (decMsgHeader b).isFault = none :=
+  isFault_none_of_noFault (decMsgHeader_noFault b)
+
+/-- `MessageChunkHeader::decode` is total on all bytes -/
+theorem chunk_header_total (b : Bytes) : (decChunkHeader b).isFault = none :=
+  isFault_none_of_noFault (decChunkHeader_noFault b)
+
+/-- `HelloMessage::decode`: total; the endpoint url is bounded by `max_string_length` -/
+theorem hello_total (o : Opts) (cap : Nat) (hc : o.maxStr ≤ cap) (b : Bytes) :
+    (decHello o cap b).isFault = none := isFault_none_of_noFault (decHello_noFault o cap b hc)
+
+/-- `AcknowledgeMessage::decode` is total -/
+theorem ack_total (b : Bytes) : (decAck b).isFault = none := isFault_none_of_noFault (decAck_noFault b)
+
+/-- `ErrorMessage::decode` is total -/
+theorem error_msg_total (o : Opts) (cap : Nat) (hc : o.maxStr ≤ cap) (b : Bytes) :
+    (decErrorMsg o cap b).isFault = none := isFault_none_of_noFault (decErrorMsg_noFault o cap b hc)
+
+/-- **`SupportedMessage::decode_by_object_id` is total**, for every dispatch table (in particular the
+regenerated `Gen.dispatchTable` with its 77 entries), every object id — known, unknown to the
+dispatch (→ `Invalid`, nothing read) — and all bytes. -/
+theorem dispatch_total (o : Opts) (cap : Nat) (hc : CapOK o cap) (fuel : Nat) (hf : stackBound o ≤ fuel)
+    (table : List (Nat × Ty)) (id : Nat) (b : Bytes) :
+    (decByObjectId o cap fuel table id b).isFault = none :=
+  isFault_none_of_noFault
+    (decByObjectId_noFault o cap fuel hc (by unfold stackBound at hf; omega) table id b)
+
+/-- an object id outside the dispatch table reads nothing and yields `Invalid` -/
+theorem dispatch_unknown_id (o : Opts) (cap fuel : Nat) (table : List (Nat × Ty)) (id : Nat) (b : Bytes)
+    (h : table.lookup id = none) : decByObjectId o cap fuel table id b = .ok none b := by
+  simp [decByObjectId, h]
+
+/-- regenerated: the dispatch table has 77 entries with distinct ids, all of them `ObjectId`s -/
+theorem dispatch_table_regular :
+    Gen.dispatchTable.length = 77 ∧ (Gen.dispatchTable.map (·.1)).Nodup
+      ∧ (Gen.dispatchTable.all fun p => Gen.objectIds.contains p.1) = true := by decide +kernel
+
+/-- current `MessageHeader::read_bytes`: total, allocation bounded by `max_message_size` -/
+theorem read_bytes_total (o : Opts) (cap : Nat) (b : Bytes)
+    (h1 : o.maxMsg > 0 → o.maxMsg ≤ cap) (h2 : o.maxMsg = 0 → 4294967295 ≤ cap) :
+    (readBytes true o cap b).isFault = none := isFault_none_of_noFault (readBytes_noFault o cap b h1 h2)
+
+/-- before the fix: a declared size below the 8 header bytes panicked (`result[8..]` of a shorter
+vector), e.g. `HELF` + size 3 -/
+theorem C02_counterexample_read_bytes_panics (o : Opts) :
+    (readBytes false o 1000 [72, 69, 76, 70, 3, 0, 0, 0]).isFault = some .panic := by
+  simp [readBytes, msgType, rd32, guardAlloc, Res.isFault]
+
+/-- before the fix: the declared size (up to 2^32 − 1) was allocated whatever `max_message_size` said -/
+theorem C02_counterexample_read_bytes_unbounded_alloc (o : Opts) :
+    (readBytes false o 65535 [72, 69, 76, 70, 255, 255, 255, 255]).isFault = some .alloc := by
+  simp [readBytes, msgType, rd32, guardAlloc, Res.isFault]
 
 end OpcuaVerif.C02
